@@ -10,7 +10,13 @@ Non-stock elements may reference earlier non-stock elements and any stock.
 """
 import json
 import math
-from decimal import Decimal as D
+from fractions import Fraction
+
+
+def D(x):
+    """exact rational from a decimal string, a 'p/q' string (reciprocal dt) or a number"""
+    return Fraction(str(x))
+
 
 from vlib.expr import IllConditioned, ev, _num
 
@@ -18,7 +24,7 @@ from vlib.expr import IllConditioned, ev, _num
 def grid(run):
     s, e, dt = D(run["start"]), D(run["stop"]), D(run["dt"])
     n = (e - s) / dt
-    if n != n.to_integral_value():
+    if n.denominator != 1:
         raise ValueError("stop not on grid")
     n = int(n)
     return [float(s + i * dt) for i in range(n + 1)]
@@ -122,7 +128,7 @@ class Ref:
         if kind == "delay":
             name, dur, init = a[1], a[2], a[3]
             steps = D(str(dur)) / self.dt
-            if steps != steps.to_integral_value():
+            if steps.denominator != 1:
                 raise IllConditioned("delay not a multiple of dt")
             kk = k - int(steps)
             if kk >= 0:
